@@ -60,6 +60,10 @@ func (c11) Generate(r *sim.Rand, tier string) *sim.Scenario {
 	if r.Bool(0.1) {
 		D = r.Range(6, 24)
 	}
+	wideLayer := r.Bool(0.004)
+	if wideLayer {
+		D = r.Range(129, 300) // a wide layer
+	}
 	if loss == 2 && r.Bool(0.1) {
 		O = r.Range(5, 17)
 	}
@@ -166,7 +170,7 @@ func (c11) Generate(r *sim.Rand, tier string) *sim.Scenario {
 		sc.Steps = append(sc.Steps, st)
 	}
 	sc.Cfg["enum"] = 1
-	if long {
+	if long || wideLayer {
 		sc.Cfg["enum"] = 0
 	}
 	return sc
